@@ -406,19 +406,33 @@ static int dispatch(TcpAsyncCtx *tcpCtx) {
 		}
 
 		if (req->state != KSI_ASYNC_STATE_WAITING_FOR_DISPATCH) {
+			bool partiallySent = (req->sentCount > 0);
 			/* The state could have been changed in application layer. Just remove the request from the request queue. */
 			KSI_AsyncHandleList_remove(tcpCtx->reqQueue, 0, NULL);
+			if (partiallySent) {
+				/* A part of the request is already on the wire: nothing may follow it on this connection. */
+				closeSocket(tcpCtx, __LINE__);
+				res = KSI_OK;
+				goto cleanup;
+			}
 			continue;
 		}
 
 		/* Verify that the send timeout has not elapsed. */
 		if (tcpCtx->parent->options[KSI_ASYNC_OPT_SND_TIMEOUT] == 0 ||
 			(difftime(curTime, req->reqTime) > tcpCtx->parent->options[KSI_ASYNC_OPT_SND_TIMEOUT])) {
+			bool partiallySent = (req->sentCount > 0);
 			/* Set error. */
 			req->state = KSI_ASYNC_STATE_ERROR;
 			req->err = KSI_NETWORK_SEND_TIMEOUT;
 			/* Just remove the request from the request queue. */
 			KSI_AsyncHandleList_remove(tcpCtx->reqQueue, 0, NULL);
+			if (partiallySent) {
+				/* A part of the request is already on the wire: nothing may follow it on this connection. */
+				closeSocket(tcpCtx, __LINE__);
+				res = KSI_OK;
+				goto cleanup;
+			}
 			continue;
 		}
 
